@@ -4,6 +4,7 @@ package keyper
 
 import (
 	"context"
+	"time"
 
 	"github.com/jackc/pgx/v4/pgxpool"
 
@@ -43,4 +44,17 @@ func VerifNewEonPubKeyHandler(
 // QueryAndHandleNewEonPubKeys runs one iteration of the handler's polling loop.
 func (v *VerifEonPubKeyHandler) QueryAndHandleNewEonPubKeys(ctx context.Context) error {
 	return v.pkh.queryAndHandleNewEonPubKeys(ctx)
+}
+
+// Loop runs the handler's polling loop (poll, handle, wait for the ticker) until ctx is done.
+func (v *VerifEonPubKeyHandler) Loop(ctx context.Context) error {
+	return v.pkh.loop(ctx)
+}
+
+// VerifSetEonPubkeyTickerTime sets the polling interval of the loop and returns the previous
+// value, so that a test can run the loop with a short interval.
+func VerifSetEonPubkeyTickerTime(d time.Duration) time.Duration {
+	old := eonPubkeyTickerTime
+	eonPubkeyTickerTime = d
+	return old
 }
